@@ -34,7 +34,7 @@ static pid_t child_pid;
 static _Atomic int child_alive;
 /* the forked child announces every post on one pipe and waits for an acknowledgement on another before the next one */
 static int ch_ann[2] = { -1, -1 }, ch_ack[2] = { -1, -1 };
-static _Atomic int ch_announced, ch_acked, ch_target = -1;
+static _Atomic int ch_announced, ch_made, ch_acked, ch_target = -1;
 static int64_t ch_stuck_since;
 static int ch_stuck_acked;
 static _Atomic long child_posts_acked, child_posts_lost;
@@ -157,9 +157,10 @@ void hk_write(int fd, const void *buf, size_t n, long ret, int err, int nonblock
 static void child_drain_announcements(void)
 {
 	char b[16];
-	long n;
+	long n, k;
 	while (ch_ann[0] >= 0 && (n = __real_read(ch_ann[0], b, sizeof(b))) > 0)
-		atomic_fetch_add(&ch_announced, (int)n);
+		for (k = 0; k < n; k++)
+			atomic_fetch_add(b[k] == 'p' ? &ch_announced : &ch_made, 1);
 }
 
 static void child_ack(void)
@@ -173,32 +174,38 @@ static void child_ack(void)
 	}
 }
 
-/* every thread is blocked and the child is still there: if it has announced a post that no handler run has followed, the post is lost
- * (the child made it right after the announcement and now waits for the acknowledgement for ever) */
+int __real_poll(struct pollfd *, nfds_t, int);
+/* every thread is blocked and the child is still there: if it has made a post (it says so once the write has returned) that no handler
+ * run has followed since it was announced, the post is lost - the child waits for the acknowledgement for ever.  The child is an
+ * external actor and may be slow for any length of time between its steps, so nothing is concluded from an announcement alone; once
+ * the post is made, the only thing still legitimately under way is the owner's wake-up (the descriptor is readable and the thread
+ * is about to run), which gets a generous allowance of real time, keyed to this one post. */
 void hk_ext_stuck(void)
 {
 	int64_t now = mt_real_ns();
-	if (!atomic_load(&child_alive) || ch_ann[0] < 0)
+	struct pollfd p;
+	int tgt = atomic_load(&ch_target), readable;
+	if (!atomic_load(&child_alive) || ch_ann[0] < 0 || tgt < 0)
 		return;
 	child_drain_announcements();
-	if (atomic_load(&ch_announced) <= atomic_load(&ch_acked)) {
+	if (atomic_load(&ch_made) <= atomic_load(&ch_acked)) {
 		ch_stuck_since = 0;
 		return;
 	}
-	/* the clock runs for one particular announcement: the one that follows the last acknowledged post (two unrelated glimpses of
-	 * announcements in flight, a second apart, are not a post that has been waiting for a second) */
+	p.fd = rw[tgt].e->event_rfd.fd; p.events = POLLIN; p.revents = 0;
+	readable = __real_poll(&p, 1, 0) > 0 && (p.revents & POLLIN);
 	if (ch_stuck_since == 0 || ch_stuck_acked != atomic_load(&ch_acked)) {
 		ch_stuck_since = now;
 		ch_stuck_acked = atomic_load(&ch_acked);
 		return;
 	}
-	if (now - ch_stuck_since < 1000000000LL)
+	if (now - ch_stuck_since < (readable ? 5000000000LL : 1000000000LL))
 		return;
 	ch_stuck_since = 0;
 	atomic_fetch_add(&child_posts_lost, 1);
 	mon_viol("C09", "lost-post-from-child", g_method,
-		 "the forked child announced post number %d to raw event %d and made it, but no handler run followed (%d acknowledged): every thread is blocked and the child waits for ever",
-		 (int)atomic_load(&ch_announced), (int)atomic_load(&ch_target), (int)atomic_load(&ch_acked));
+		 "the forked child announced post number %d to raw event %d and made it, but no handler run followed (%d acknowledged, the descriptor is %s): every thread is blocked and the child waits for ever",
+		 (int)atomic_load(&ch_acked) + 1, tgt, (int)atomic_load(&ch_acked), readable ? "readable but its owner does not wake up" : "not readable");
 	__real_kill(child_pid, SIGKILL);
 }
 
@@ -425,7 +432,7 @@ static void run_case(long id, uint64_t seed)
 			if (__real_pipe(ch_ann) < 0 || __real_pipe(ch_ack) < 0)
 				_exit(2);
 			fcntl(ch_ann[0], F_SETFL, O_NONBLOCK);
-			atomic_store(&ch_announced, 0); atomic_store(&ch_acked, 0); atomic_store(&ch_target, tgt);
+			atomic_store(&ch_announced, 0); atomic_store(&ch_made, 0); atomic_store(&ch_acked, 0); atomic_store(&ch_target, tgt);
 			ch_stuck_since = 0;
 			atomic_store(&child_alive, 1);	/* (before the fork: the handler may run for the child's first post at once) */
 			child_pid = fork();
@@ -437,6 +444,8 @@ static void run_case(long id, uint64_t seed)
 					if (write(ch_ann[1], "p", 1) != 1)
 						_exit(0);
 					iv_event_raw_post(rw[tgt].e);
+					if (write(ch_ann[1], "d", 1) != 1)
+						_exit(0);
 					while (read(ch_ack[0], &b, 1) < 0 && errno == EINTR)
 						;
 				}
